@@ -11,6 +11,7 @@ import (
 	"fmt"
 	"math/rand"
 	"os"
+	"path/filepath"
 	"sort"
 	"strings"
 	"sync"
@@ -569,5 +570,181 @@ func TestC08Stress(t *testing.T) {
 			fmt.Printf("%v\nVIOLATION property=C08 replay=%s\n", v, path)
 			t.FailNow()
 		}
+	}
+}
+
+// TestC08TailRace: reads at the very tail of the log against a publisher, at full speed on the plain binary, with no
+// deletes anywhere - so every message is live for ever and the sequential contract leaves each read exactly two
+// admissible answers (before or after the publish). The windows these races live in are a few instructions wide and
+// have no pause point; what the test owns instead is the number of attempts (one fresh log per round, many rounds).
+func TestC08TailRace(t *testing.T) {
+	st := NewStats("C08")
+	defer st.Write()
+	seed := int64(envInt("VF_SEED", 1))
+	shard := envInt("VF_SHARD", 0)
+	rounds := 800
+	if thoroughTier() {
+		rounds = 8000
+	}
+	root := MkScratch("vf-tail-")
+	defer os.RemoveAll(root)
+	var fails []string
+	var mu sync.Mutex
+	fail := func(f string, args ...any) {
+		mu.Lock()
+		if len(fails) < 6 {
+			fails = append(fails, fmt.Sprintf(f, args...))
+		}
+		mu.Unlock()
+	}
+	for r := 0; r < rounds && len(fails) == 0; r++ {
+		dir := filepath.Join(root, fmt.Sprintf("r%d", r))
+		opts := klevdb.Options{CreateDirs: true, KeyIndex: true, TimeIndex: true, Rollover: int64([]int{1 << 20, 200, 90}[(r+shard)%3])}
+		if (seed+int64(r))%5 == 0 {
+			opts.Version.NewSegmentsVersion = klevdb.V1
+		}
+		l, err := klevdb.Open(dir, opts)
+		if err != nil {
+			t.Fatalf("open: %v", err)
+		}
+		// half of the rounds start from a log whose head has just been emptied by a delete of everything
+		pre := int64(0)
+		if r%2 == 1 {
+			for i := 0; i < 3; i++ {
+				pre, _ = l.Publish([]klevdb.Message{{Time: time.UnixMicro(int64(10 + i)), Key: []byte("p"), Value: []byte("x")}})
+			}
+			set := map[int64]struct{}{}
+			for o := int64(0); o < pre; o++ {
+				set[o] = struct{}{}
+			}
+			for len(set) > 0 {
+				del, _, err := l.Delete(set)
+				if err != nil || len(del) == 0 {
+					break
+				}
+				for _, d := range del {
+					delete(set, d.Offset)
+				}
+			}
+		}
+		const N = 40
+		var wg sync.WaitGroup
+		var done atomic.Bool
+		wg.Add(1)
+		go func() {
+			defer wg.Done()
+			for i := 0; i < N; i++ {
+				if _, err := l.Publish([]klevdb.Message{{Time: time.UnixMicro(int64(100 + i)), Key: []byte(fmt.Sprintf("k%d", i)), Value: []byte("v")}}); err != nil {
+					fail("Publish: %v", err)
+				}
+			}
+			done.Store(true)
+		}()
+		kinds := []string{"get-next", "consume-oldest", "consume-next", "getbykey-next", "next-offset"}
+		for ki := 0; ki < 2; ki++ {
+			kind := kinds[(r+shard+ki*2)%len(kinds)]
+			wg.Add(1)
+			go func(kind string) {
+				defer wg.Done()
+				n := pre // the next offset this reader has not seen published yet
+				var lastNext int64
+				for !done.Load() || n < pre+N {
+					if n >= pre+N {
+						return
+					}
+					switch kind {
+					case "get-next":
+						g, err := l.Get(n)
+						switch {
+						case err == nil && g.Offset == n:
+							n++
+						case errors.Is(err, klevdb.ErrInvalidOffset):
+						default:
+							fail("Get(%d) of an offset that is being assigned (nothing is ever deleted after offset %d) returned offset %d, %v; only the message or ErrInvalidOffset are possible", n, pre, g.Offset, err)
+							return
+						}
+					case "consume-oldest":
+						no, msgs, err := l.Consume(klevdb.OffsetOldest, 4)
+						switch {
+						case err != nil:
+							fail("Consume(OffsetOldest): %v", err)
+							return
+						case len(msgs) > 0 && msgs[0].Offset != pre:
+							fail("Consume(OffsetOldest) started at offset %d, the oldest live message is %d", msgs[0].Offset, pre)
+							return
+						case len(msgs) == 0 && no != pre:
+							fail("Consume(OffsetOldest) returned no messages and next offset %d: it stepped over live messages from %d on (nothing after %d is ever deleted)", no, pre, pre)
+							return
+						case len(msgs) > 0:
+							n = pre + N // this reader has seen what it came for; keep the publisher company with cheap polls
+							for !done.Load() {
+								if no2, m2, err := l.Consume(klevdb.OffsetOldest, 1); err != nil || len(m2) != 1 || m2[0].Offset != pre || no2 != pre+1 {
+									fail("Consume(OffsetOldest,1) -> %d,%v,%v want message %d", no2, msgOffsets(m2), err, pre)
+									return
+								}
+							}
+						}
+					case "consume-next":
+						no, msgs, err := l.Consume(n, 3)
+						switch {
+						case errors.Is(err, klevdb.ErrInvalidOffset):
+							// n is beyond NextOffset only if n was never reached: n starts at NextOffset
+							fail("Consume(%d) at or below NextOffset failed: %v", n, err)
+							return
+						case err != nil:
+							fail("Consume(%d): %v", n, err)
+							return
+						case len(msgs) == 0 && no != n:
+							fail("Consume(%d) returned nothing and next offset %d", n, no)
+							return
+						case len(msgs) > 0:
+							for i, m := range msgs {
+								if m.Offset != n+int64(i) {
+									fail("Consume(%d) returned offsets %v (no message is ever deleted here)", n, msgOffsets(msgs))
+									return
+								}
+							}
+							if no != n+int64(len(msgs)) {
+								fail("Consume(%d) returned %v and next offset %d", n, msgOffsets(msgs), no)
+								return
+							}
+							n = no
+						}
+					case "getbykey-next":
+						g, err := l.GetByKey([]byte(fmt.Sprintf("k%d", n-pre)))
+						switch {
+						case err == nil && g.Offset == n:
+							n++
+						case errors.Is(err, klevdb.ErrNotFound):
+						default:
+							fail("GetByKey(k%d) returned offset %d, %v; the key is published once, at offset %d", n-pre, g.Offset, err, n)
+							return
+						}
+					case "next-offset":
+						no, err := l.NextOffset()
+						if err != nil || no < lastNext || no > pre+N {
+							fail("NextOffset -> %d,%v after %d", no, err, lastNext)
+							return
+						}
+						lastNext = no
+						if no == pre+N {
+							return
+						}
+					}
+				}
+			}(kind)
+		}
+		wg.Wait()
+		_ = l.Close()
+		_ = os.RemoveAll(dir)
+		st.Eval(1)
+		st.Inc("tail_race_rounds")
+	}
+	st.NonTrivialStr(fmt.Sprintf("tailrace|%d|%d", shard, seed))
+	if len(fails) > 0 {
+		v := &Violation{Oracle: "history", Msg: fmt.Sprintf("reads at the tail racing a publisher (no deletes): %v", fails)}
+		path := WriteReplay("C08", "stress", v, map[string]any{"tail_race": true, "failures": fails})
+		fmt.Printf("%v\nVIOLATION property=C08 replay=%s\n", v, path)
+		t.FailNow()
 	}
 }
